@@ -129,6 +129,7 @@ typedef struct rt_hooks_s {
 
 void rt_execute (const rt_config *cfg, const rt_hooks *hooks, rt_verdict *v, rt_stats *st);
 
+void rt_run_thread_destructors (void);           /* what pthread does with the per-thread waiter at thread exit; also run when the thread function returns */
 int rt_spawn (void (*fn) (void *), void *arg);  /* returns tid (1..RT_MAXT-1) */
 int rt_self (void);                              /* 0 on the main context */
 void rt_op_boundary (int outside_cs);            /* scheduling point between two program operations */
